@@ -21,7 +21,16 @@ ASSUMPTIONS = ["out-of-range integer indices are not claimed by the property and
 def base(case, ctx):
     a = rl.dense(case["dt"], case["runs"])
     ctx.label("dt:" + case["dt"])
-    return a, rl.encode(a), set(rl.run_structure(a))
+    x = rl.encode(a)
+    pre = case.get("pre")
+    if pre is not None and len(a[slice(*pre)]) >= 1:
+        # the indexed array is itself the result of an earlier slice (any step): indexing is closed under indexing
+        got = lib(lambda: x[slice(*pre)])
+        if not got.ok:
+            raise Violation("pre-slice:unexpected-refusal", got=got.brief(), pre=pre)
+        x, a = got.value, a[slice(*pre)]
+        ctx.label("source:slice-result", "pre-step:%s" % pre[2])
+    return a, x, set(rl.run_structure(a))
 
 
 def body_int(case, ctx):
@@ -156,6 +165,9 @@ def idx_case(draw, tier, kind):
     runs = draw(rl.runs(dt, tier))
     n = sum(l for _, l in runs)
     case = {"dt": dt, "runs": runs}
+    if draw(st.integers(0, 3)) == 0:
+        case["pre"] = [draw(gen.bound(n)), draw(gen.bound(n)), draw(st.sampled_from([None, 1, -1, 2, -2, 3]))]
+        n = max(len(range(*slice(*case["pre"]).indices(n))), 1)
     if kind == "int":
         case["i"] = draw(st.integers(0, 10**6))
         case["np"] = draw(st.booleans())
